@@ -190,6 +190,58 @@ def run(repo, run, tier):
     run.check(R1, "declast.Declaration.gen_attrs", "sorted(attrs)" in s and 'attr[0] == "_"' in s and
               '"{}({})".format(attr, value)' in s,
               "gen_attrs must render every user attribute as +name or +name(value)", dm.loc(ga))
+    # once a type specifier has been read, an identifier is the declarator - also when it names a type
+    # (`void setColor(int Color)` with an enum Color): every arm of declaration_specifier that records a
+    # specifier also records that the type has been found
+    ds = dm.func("Parser.declaration_specifier")
+    loops_ = [l for l in ast.walk(ds) if isinstance(l, ast.While)]
+    if len(loops_) != 1:
+        raise AnalysisError("C09.R1: specifier loop of declaration_specifier not found")
+    gate = [i for i in ast.walk(loops_[0]) if isinstance(i, ast.If) and "not found_type" in dm.seg(i.test)
+            and "'ID'" in dm.seg(i.test)]
+    if not gate:
+        raise AnalysisError("C09.R1: the `not found_type and token is ID` test of declaration_specifier not found")
+    nsp = 0
+    for c in ast.walk(loops_[0]):
+        if isinstance(c, ast.Call) and str(dm.seg(c.func)) == "node.specifier.append":
+            nsp += 1
+            arm = c
+            while not (isinstance(getattr(arm, "_parent", None), ast.If) and arm._parent in ast.walk(loops_[0])
+                       and (arm in arm._parent.body or arm in arm._parent.orelse)):
+                arm = arm._parent
+            body = arm._parent.body if arm in arm._parent.body else arm._parent.orelse
+            sets = any(isinstance(a, ast.Assign) and pyflow.is_name(a.targets[0], "found_type")
+                       and isinstance(a.value, ast.Constant) and a.value.value is True for st in body for a in ast.walk(st))
+            run.check(R1, "declast.Parser.declaration_specifier:found_type@%s" % re.sub(r"\s+", "", str(dm.seg(c)))[:40], sets,
+                      "the arm that records `%s` does not set found_type: an identifier after it that happens to name a "
+                      "type (enum, class, typedef) is read as a second type specifier and the parameter loses its name"
+                      % dm.seg(c), dm.loc(c))
+    if nsp < 2:
+        raise AnalysisError("C09.R1: specifier-recording arms of declaration_specifier not found")
+    # str() of a pointer level / declarator is the second renderer of the same node (add_struct builds member
+    # declarations from it): it shows every qualifier gen_decl_work shows
+    for cls_ in ("Ptr", "Declarator"):
+        try:
+            fw, fs = dm.func(cls_ + ".gen_decl_work"), dm.func(cls_ + ".__str__")
+        except Exception:
+            raise AnalysisError("C09.R1: %s.gen_decl_work / __str__ not found" % cls_)
+        def reads_(fn_):
+            return set(x.attr for x in ast.walk(fn_) if isinstance(x, ast.Attribute) and pyflow.is_name(x.value, "self")
+                       and isinstance(x.ctx, ast.Load))
+        miss = sorted(reads_(fw) - reads_(fs))
+        run.check(R1, "declast.%s.__str__:fields" % cls_, not miss,
+                  "%s.gen_decl_work renders %s but %s.__str__ does not: str(decl) of `int * volatile p` drops the "
+                  "qualifier, and struct members are re-parsed from that string" % (cls_, miss, cls_), dm.loc(fs))
+    # a literal default value is stored with the value C++ gives it: a leading 0 makes it octal
+    ini_ = dm.func("Parser.initializer")
+    ints_ = [c for c in ast.walk(ini_) if isinstance(c, ast.Call) and pyflow.is_name(c.func, "int")]
+    if not ints_:
+        raise AnalysisError("C09.R1: int() of Parser.initializer not found")
+    oct_ = [c for c in ints_ if len(c.args) == 2 and isinstance(c.args[1], ast.Constant) and c.args[1].value == 8
+            and any("[0] == '0'" in str(dm.seg(t)) and p for t, p in pyflow.dominating_tests(c, stop=ini_))]
+    run.check(R1, "declast.Parser.initializer:octal", bool(oct_),
+              "an integer default value is converted with int(text): `int x = 010` is stored and rendered as 10 where C++ "
+              "means 8", dm.loc(ints_[0]))
     # only an *unset* attribute is left out: 0 and "" are values (+rank(0), +len(0))
     skips = [c for c in ast.walk(ga) if isinstance(c, ast.Continue)]
     for c in skips:
